@@ -15,7 +15,7 @@ WRAPS = ['psGetEntropy', 'time', 'psLockMutex', 'psUnlockMutex']
 PROP = dict(
     level='exploration',
     level_text='Sampled schedules of generated multi-threaded programs under a happens-before race detector plus a per-object linearizability check '
-               'of the resumption outcomes; finds races, lock misuse, deadlocks and atomicity violations that show up in the sampled schedules, '
+               'of the resumption and certificate-revocation outcomes; finds races, lock misuse, deadlocks and atomicity violations that show up in the sampled schedules, '
                'proves nothing about the schedules that were not sampled.',
     level_note='Limits, stated honestly: the harness does not own the OS scheduler. Schedules are only perturbed (seeded sched_yield/nanosleep at every API '
                'boundary and around every psLockMutex/psUnlockMutex, 2/4/8 threads, 2-4 yield seeds per program), so the absence of a report is weak evidence '
@@ -28,16 +28,29 @@ PROP = dict(
                'driver (documented GetReadbuf/ReceivedData/ProcessedData/GetOutdata/SentData contract), and the sequential model: a cached session resumes iff its '
                'entry is still valid (a connection whose server answered a corrupted record with a fatal alert removes its entry for good; left free when '
                'enough registrations happened that LRU eviction was possible), '
-               'a ticket/TLS 1.3 PSK resumes iff its ticket key has not been deleted, every handshake completes, delivered data equals sent data. '
-               'Not covered: DTLS, client authentication, EC server identities, matrixSslClose/Open racing with sessions, more than 8 threads, CPU-affinity variation. '
+               'a ticket/TLS 1.3 PSK resumes iff its ticket key has not been deleted, every handshake completes, delivered data equals sent data; '
+               'the cached CRL of an issuer is a register (load/replace writes a version, delete writes "none") that every validation of a chain carrying its issuer reads '
+               'atomically: rejected with CRL_CHECK_REVOKED_AND_AUTHENTICATED iff the version read lists the leaf, never left "..._BUT_NOT_AUTHENTICATED" '
+               '(crl.c authenticates a cached CRL with cert->next under the table lock before it reads the flag), so a leaf revoked by every version that was cached during '
+               'its validation is never accepted and a leaf revoked by none is never reported revoked; a handshake against the revocable server identity completes or is '
+               'refused with certificate_revoked accordingly. The application-side discipline the harness follows: a CRL is authenticated (psX509AuthenticateCRL) only before it is '
+               'inserted, and the psCRL_GetCRLForCert + psCRL_Delete pair of apps/ssl/client.c runs with other cache mutators (not validations) kept out by an application lock. '
+               'Not covered: DTLS, client authentication, EC server identities (EC chains are validated directly, not through handshakes), psCRL_Remove/psCRL_RemoveAll/psCRL_Insert '
+               '(RemoveAll dereferences NULL on an empty cache - a known sequential quirk), psX509AuthenticateCRL on a CRL that is already in the cache (it writes the flag without the '
+               'table lock by design: "NO g_CRL used at all"), expired CRLs, matrixSslClose/Open racing with sessions, more than 8 threads, CPU-affinity variation. '
                'Sensitivity (props/C20/mutants/*.patch, applied on top of the two finding patches): lock dropped in matrixResumeSession, PRNG lock dropped, ticket-key inUse '
                'flag cleared after the unlock, ephemeral ECC cache without its lock, deleted ticket key still usable, lock leaked on a cache miss (deadlock) are all reported by the '
-               'quick tier; a check-then-use atomicity mutant without a data race (table lock released and re-taken inside matrixResumeSession) is NOT reliably found.',
+               'quick tier; a check-then-use atomicity mutant without a data race (table lock released and re-taken inside matrixResumeSession) is NOT reliably found. '
+               'CRL cache (props/C20/mutants/m8..m11): table lock released around the CRL signature check, psCRL_Update without the lock, cached CRL used after the unlock, '
+               'authenticated flag not set by the in-validation authentication.',
     technique='concurrency testing: generated multi-threaded operation programs run under ThreadSanitizer with seeded schedule perturbation (ld --wrap of '
               'psLockMutex/psUnlockMutex), interval-logged operations checked for linearizability per shared object (Wing-Gong search), deadlock watchdog',
     rule='case = program (N in {2,4,8} threads x 1..6 operations: full / session-id-resumed / RFC 5077 ticket-resumed / TLS 1.3 PSK-resumed handshakes over a shared '
          'server and client sslKeys_t with credentials passed between threads, data both ways, held connections, closes, corrupted-record invalidation, '
-         'ticket-key load/delete rotation, CRL cache replacement) x 2..4 yield seeds; non-trivial = at least two threads overlapped in the interval log on operations '
+         'ticket-key load/delete rotation; in 7 of 8 programs additionally 1..8 CRL-cache operations per thread: CRL load/replace of ca_rsa/ca_ec versions that do / do not revoke the leaf, '
+         'inserted unauthenticated or authenticated first, psCRL_DeleteAll / GetCRLForCert+Delete, validation of leaf+CA chains (revocable and never-revoked leaves, RSA and EC) with '
+         'psX509AuthenticateCert or matrixValidateCerts over the shared trust anchors, handshakes against a server identity whose leaf the revoking versions list; the cache starts '
+         'empty / with an unauthenticated / with an authenticated version) x 2..4 yield seeds; non-trivial = at least two threads overlapped in the interval log on operations '
          'touching the same shared structure (session cache, ticket key list, ephemeral ECC cache, PRNG, CRL cache); distinct by (operation-kind multiset per thread, '
          'set of overlapping operation-kind pairs per structure)',
     assumptions=['x86-64 Linux scheduler; schedules are sampled, not enumerated',
